@@ -71,6 +71,11 @@ var c26Variants = []*c26Variant{
 		Src: func(n string) string {
 			return c26Body(n, "S", "    access(all) struct S { access(all) let a: Int; init() { self.a = 1 } }\n    access(all) resource R { }", "init() { self.x = 40 }")
 		}},
+	// an enum that is NOT the first nested declaration (removal must still be refused)
+	{ID: "SE", Valid: true, Fields: map[string]string{"x": "Int"}, Nested: map[string]string{"S": "struct", "R": "resource", "E": "enum"}, EnumCases: []string{"a", "b"}, InitX: 41,
+		Src: func(n string) string {
+			return c26Body(n, "SE", "    access(all) event Made(v: Int)\n    access(all) struct S { access(all) let a: Int; init() { self.a = 1 } }\n    access(all) resource R { }\n    access(all) enum E: UInt8 { access(all) case a; access(all) case b }", "init() { self.x = 41 }")
+		}},
 	{ID: "G", Valid: true, Fields: map[string]string{"x": "Int"}, InitArg: true,
 		Src: func(n string) string { return c26Body(n, "G", "", "init(v: Int) { self.x = v }") }},
 	{ID: "X", Valid: true, Fields: map[string]string{"x": "Int"}, InitPanic: true,
@@ -418,7 +423,7 @@ func c26GenHistory(c *core.Ctx, ntx int) []c26Tx {
 	rng := c.Rng
 	st := c26State{}
 	var txs []c26Tx
-	validIDs := []string{"P0", "P1", "P2", "F", "E0", "E1", "S", "G", "T", "I0", "I1", "X"}
+	validIDs := []string{"P0", "P1", "P2", "F", "E0", "E1", "S", "SE", "G", "T", "I0", "I1", "X"}
 	badIDs := []string{"bad-parse", "bad-type", "bad-name", "bad-two", "bad-none"}
 	for t := 0; t < ntx; t++ {
 		signer := c26Accounts[rng.IntN(len(c26Accounts))]
@@ -776,7 +781,7 @@ func engFamily(e host.Engine) string {
 func init() {
 	core.Register(&core.Prop{
 		ID: "C26",
-		Rule: "seeded histories of 8 transactions over 3 accounts x 3 contract names; lifecycle transactions hold 1-4 operations among contracts.add/update/tryUpdate/remove/get/names/borrow with sources drawn from 12 valid variants (plain versions, added field, retyped field, enums with 2/3 cases, nested struct+resource, init argument, failing init, contract interfaces) and 5 invalid ones (parse error, type error, name mismatch, two declarations, no declaration); " +
+		Rule: "seeded histories of 8 transactions over 3 accounts x 3 contract names; lifecycle transactions hold 1-4 operations among contracts.add/update/tryUpdate/remove/get/names/borrow with sources drawn from 13 valid variants (plain versions, added field, retyped field, enums with 2/3 cases, nested struct+resource, nested event+struct+resource followed by an enum, init argument, failing init, contract interfaces) and 5 invalid ones (parse error, type error, name mismatch, two declarations, no declaration); " +
 			"call transactions import deployed contracts on a fresh runtime, call tag()/bump() and borrow<&N>; 1/6 of the transactions abort with panic; every history runs on I, V and Vp; distinct = history text",
 		Assumptions: []string{
 			"the host is transactional: after a failed transaction the harness restores ledger and code store from the pre-transaction snapshot (Cadence updates the host code store immediately during execution)",
